@@ -47,8 +47,8 @@ def run(ctx):
         b, bb, t = ws[0]
         arg = b.arg_origin(bb, 1)
         whole = T.peel(arg)
-        rng_full = T.find(arg, lambda x: isinstance(x, tuple) and x[0] == "agg" and (x[2] or "").endswith("RangeFull"))
-        ok = T.is_field(whole, "to_write") and (rng_full is not None or arg == whole) and cname(t["func"]).endswith("write_all")
+        partial = T.find(arg, lambda x: isinstance(x, tuple) and x[0] == "agg" and re.search(r"ops::Range(From|To|Inclusive|ToInclusive)?$", x[2] or "") is not None)
+        ok = T.is_field(whole, "to_write") and partial is None and cname(t["func"]).endswith("write_all")
         ctx.ob("C04.sole-writer", ok, "the transport must receive the whole pending buffer with write_all (got %s via %s)" % (term_str(arg)[:80], cname(t["func"])[-30:]),
                fn=b.path, construct="write-arg", where=b.where(bb), sample={"rule": "sole-writer", "arg": term_str(arg)[:80]})
         fsites = roles._transport_sites(r"^std::io::Write::flush$")
@@ -82,10 +82,13 @@ def run(ctx):
             tw = d.get("to_write")
             arr = T.find(tw, lambda x: isinstance(x, tuple) and x[0] == "agg" and x[1] == "array") if tw else None
             rep = T.find(tw, lambda x: isinstance(x, tuple) and x[0] == "repeat") if tw else None
+            fe = T.find(tw, lambda x: T.is_call(x, r"vec::from_elem$")) if tw else None
             if arr is not None:
                 init_len = len(arr[4])
             elif rep is not None and str(rep[2]).isdigit():
                 init_len = int(rep[2])
+            elif fe is not None and T.const_int(fe[2][1]) is not None:
+                init_len = T.const_int(fe[2][1])
             if init_len is None and tw is not None and T.contains(tw, lambda x: T.is_call(x, r"into_vec|box_assume_init_into_vec")):
                 # vec![a, b, c, d] lowers to a boxed array initialised in place: take the array aggregate stored in the constructor
                 arrs = [s_["rv"] for _, _, s_ in fnew.stmts() if s_["k"] == "assign" and s_["rv"]["k"] == "agg" and s_["rv"].get("ak") == "array"]
@@ -101,7 +104,9 @@ def run(ctx):
                 dst = ft.arg_origin(bbx, 0)
                 val = ft.arg_origin(bbx, 1)
                 rng = T.find(dst, lambda x: isinstance(x, tuple) and x[0] == "agg" and (x[2] or "").endswith("ops::Range"))
-                okr = rng is not None and T.is_const_int(rng[4][0], 0) and T.is_const_int(rng[4][1], 3) and T.contains(dst, lambda x: T.is_field(x, "to_write"))
+                rng = rng or T.find(dst, lambda x: isinstance(x, tuple) and x[0] == "agg" and (x[2] or "").endswith("ops::RangeTo"))
+                okr = rng is not None and ((len(rng[4]) == 2 and T.is_const_int(rng[4][0], 0) and T.is_const_int(rng[4][1], 3)) or (len(rng[4]) == 1 and T.is_const_int(rng[4][0], 3))) and \
+                    T.contains(dst, lambda x: T.is_field(x, "to_write"))
                 B = Bounds(ft, bbx, prog.ptr_bits)
                 v = val
                 if isinstance(v, tuple) and v[0] == "cast" and v[2] == "u32":
@@ -131,7 +136,7 @@ def run(ctx):
                         and T.is_field(T.peel(T.peel(v[2], payloads=False)[2][0]), "to_write"):
                     K = (const_of(v[3]), v[1], bbx, t2)
         for bbx, t2 in fw.calls():
-            if cname(t2["func"]).endswith("cmp::min"):
+            if re.search(r"(cmp::min|cmp::Ord::min|Ord>::min|Ord::min)$", cname(t2["func"])) or re.search(r"cmp::Ord::min$", t2["func"]["path"]):
                 for i in (0, 1):
                     a = fw.arg_origin(bbx, i)
                     if isinstance(a, tuple) and a[0] == "bin" and a[1] == "Sub" and T.is_call(a[3], r"Vec::<T, A>::len$") and T.is_field(T.peel(a[3][2][0]), "to_write"):
@@ -150,7 +155,7 @@ def run(ctx):
                 if re.search(r"Extend<.*>>::extend$|extend_from_slice$", cname(t2["func"])):
                     src = fw.arg_origin(bbx, 1)
                     rt = T.find(src, lambda x: isinstance(x, tuple) and x[0] == "agg" and (x[2] or "").endswith("ops::RangeTo"))
-                    okc = rt is not None and T.is_call(rt[4][0], r"cmp::min$") and T.contains(src, lambda x: T.is_param(x, 2))
+                    okc = rt is not None and T.is_call(rt[4][0], r"(cmp::min|Ord::min|Ord>::min)$") and T.contains(src, lambda x: T.is_param(x, 2))
                     ctx.ob("C04.split-threshold", okc, "bytes appended to the pending buffer are %s (need buf[..min(buf.len(), K - len)])" % term_str(src)[:100], fn=fw.path,
                            construct="copy", where=fw.where(bbx))
 
@@ -178,7 +183,7 @@ def run(ctx):
             ctx.ob("C04.write-progress", full is False or (full is True and ended), "an Ok path of write leaves a full pending buffer without ending the packet (full=%s, ended=%s)" % (full, ended),
                    fn=fw.path, construct="post-condition", where=fw.where(p.blocks[-1]))
             rv = p.return_value()
-            okr = rv[0] == "agg" and rv[3] == "Ok" and T.is_call(T.peel(rv[4][0]), r"cmp::min$")
+            okr = rv[0] == "agg" and rv[3] == "Ok" and T.is_call(T.peel(rv[4][0]), r"(cmp::min|Ord::min|Ord>::min)$")
             ctx.ob("C04.write-progress", okr, "write must report the number of bytes it actually buffered (returns %s)" % term_str(rv)[:80], fn=fw.path, construct="returned-count", nontrivial=False)
         ctx.floor("C04.write-progress", "Ok paths of write", n, 2)
         # nobody hands bytes to the framer with a bare `write` (which may accept only part of them and whose count would be dropped)
